@@ -166,19 +166,20 @@ def revertStage (r : Row) : Row :=
 
 def finalMsg : Str := str "Final reaction is unbalanced."
 
+/-! the row after each stage, named -/
+def pc0 (s : Str) : Row := { input := s, reaction := s }
+def pc1 (s : Str) : Row := validate O .input true false none (pc0 s)
+def pc2 (cfg : Config) (s : Str) : Row := rbStage O cfg (pc1 O s)
+def pc3 (cfg : Config) (s : Str) : Row := validate O .rule false true none (pc2 O cfg s)
+def pc4 (cfg : Config) (s : Str) : Row := searchStage O (pc3 O cfg s)
+def pc5 (cfg : Config) (s : Str) : Row := (imputeStage O (pc4 O cfg s)).1
+def pc6 (cfg : Config) (s : Str) : Row := validate O .mcs true false none (pc5 O cfg s)
+def pc7 (cfg : Config) (s : Str) : Row := postStage O (pc6 O cfg s)
+def pc8 (cfg : Config) (s : Str) : Row := rbStage O cfg (pc7 O cfg s)
+def pc9 (cfg : Config) (s : Str) : Row := validate O .mcs true true (some finalMsg) (pc8 O cfg s)
+
 /-- everything before the confidence filter (does not mention the threshold) -/
-def preConf (cfg : Config) (input : Str) : Row :=
-  let r0 : Row := { input := input, reaction := input }
-  let r1 := validate O .input true false none r0
-  let r2 := rbStage O cfg r1
-  let r3 := validate O .rule false true none r2
-  let r4 := searchStage O r3
-  let r5 := (imputeStage O r4).1
-  let r6 := validate O .mcs true false none r5
-  let r7 := postStage O r6
-  let r8 := rbStage O cfg r7
-  let r9 := validate O .mcs true true (some finalMsg) r8
-  revertStage r9
+def preConf (cfg : Config) (input : Str) : Row := revertStage (pc9 O cfg input)
 
 /-- issue text of a demoted row: `"Confidence is below the threshold of {:.2%}."` is rendered by the harness;
 the model only records that the row was demoted -/
@@ -207,19 +208,13 @@ structure RowStats where
 def b2n (b : Bool) : Nat := if b then 1 else 0
 
 def rowStats (cfg : Config) (input : Str) : RowStats :=
-  let r0 : Row := { input := input, reaction := input }
-  let r1 := validate O .input true false none r0
-  let rb := rbOut O cfg r1
-  let r3 := validate O .rule false true none (rbStage O cfg r1)
-  let r4 := searchStage O r3
-  let r9 := preConf O cfg input
   { reactionCnt := 1
-    balancedCnt := b2n ((rb.map (·.countedBalanced)).getD false)
-    rbApplied := b2n ((rb.map (·.applied)).getD false)
-    rbSolved := b2n ((rb.map (·.solved)).getD false)
-    mcsApplied := b2n r4.hasMcs
-    mcsSolved := b2n (imputeStage O r4).2
-    confidentCnt := b2n (r9.solvedBy = some .mcs ∧ O.conf ≥ cfg.threshold) }
+    balancedCnt := b2n (((rbOut O cfg (pc1 O input)).map (·.countedBalanced)).getD false)
+    rbApplied := b2n (((rbOut O cfg (pc1 O input)).map (·.applied)).getD false)
+    rbSolved := b2n (((rbOut O cfg (pc1 O input)).map (·.solved)).getD false)
+    mcsApplied := b2n (pc4 O cfg input).hasMcs
+    mcsSolved := b2n (imputeStage O (pc4 O cfg input)).2
+    confidentCnt := b2n (decide ((preConf O cfg input).solvedBy = some .mcs ∧ O.conf ≥ cfg.threshold)) }
 
 /-- an input row as the pipeline sees it: valid (with its oracle) or malformed -/
 inductive InRow
